@@ -1,0 +1,25 @@
+//! Verification hooks: read-only re-exports of internal items and thin wrappers around private
+//! functions. Compiled only with the `verif_hooks` cargo feature; nothing here changes behaviour.
+
+pub use crate::base::verif_generate_encoding_parameters as generate_encoding_parameters;
+pub use crate::base::{deg, intermediate_tuple};
+pub use crate::constraint_matrix::verif_generate_hdpc_rows as generate_hdpc_rows;
+pub use crate::constraint_matrix::{enc_indices, generate_constraint_matrix_no_hdpc};
+pub use crate::encoder::SPARSE_MATRIX_THRESHOLD;
+pub use crate::encoder::verif_encoder as encoder;
+pub use crate::octet::{OCTET_MUL, OCTET_MUL_HI_BITS, OCTET_MUL_LOW_BITS};
+pub use crate::octet_matrix::DenseOctetMatrix;
+pub use crate::octets::verif_kernels as kernels;
+pub use crate::octets::{
+    BinaryOctetVec, add_assign, fused_addassign_mul_scalar, fused_addassign_mul_scalar_binary,
+    mulassign_scalar,
+};
+pub use crate::operation_vector::{SymbolOps, perform_op};
+pub use crate::pi_solver::{fused_inverse_mul_symbols, fused_inverse_mul_symbols_no_hdpc};
+pub use crate::rng::rand;
+pub use crate::systematic_constants::{
+    MAX_SOURCE_SYMBOLS_PER_BLOCK, SYSTEMATIC_INDICES_AND_PARAMETERS, calculate_p1,
+    extended_source_block_symbols, num_hdpc_symbols, num_intermediate_symbols, num_ldpc_symbols,
+    num_lt_symbols, num_pi_symbols, systematic_index,
+};
+pub use crate::util::int_div_ceil;
